@@ -3,6 +3,7 @@ package main
 import (
 	"fmt"
 	"go/token"
+	"regexp"
 	"strings"
 
 	"golang.org/x/tools/go/ssa"
@@ -102,13 +103,15 @@ func runC10(c *Ctx) {
 
 	// ---- C10.2 context first
 	if ica := genFn(c, "C10.2", "(*Graph).injectContextArg"); ica != nil {
-		stores := storesToField([]*ssa.Function{ica}, "internal/kessoku.Injector.Args")
+		// helpers that injectContextArg hands the injector to are part of the same rule (their stores change the same list)
+		icaFns := injectorHelpers(ica, 2)
+		stores := storesToField(icaFns, "internal/kessoku.Injector.Args")
 		isPrepend := func(st *ssa.Store) (bool, string) {
 			s := newSym(L, map[string]bool{})
 			s.maxD = 0
 			ts := s.eval(st.Val)
 			for _, t := range ts {
-				if !strings.HasPrefix(t, "builtin append(list(") || !strings.HasSuffix(t, ", field:internal/kessoku.Injector.Args(param:injector))") {
+				if !strings.HasPrefix(t, "builtin append(list(") || !argsOfInjectorParam.MatchString(t) {
 					return false, strings.Join(ts, " | ")
 				}
 				// exactly one element in the literal
@@ -180,6 +183,9 @@ func runC10(c *Ctx) {
 				if strings.HasPrefix(t, "bin!=(") && strings.HasSuffix(t, ", nil)") && strings.Contains(t, "InjectorArgument") || strings.Contains(t, "index(field:internal/kessoku.Injector.Args(") {
 					just = "an existing context argument was found (moved to the front when its index is > 0)"
 				}
+				if okS, _ := containsFuncOver(L, iff.Cond, "field:internal/kessoku.Injector.Args(", "isContextType", "internal/kessoku.InjectorArgument.Type"); okS {
+					just = "an existing context argument was found by slices.IndexFunc/ContainsFunc (moved to the front by the helper)"
+				}
 			}
 			c.check(just != "", "C10.2", "injectContextArg:return-without-prepend", L.pos(r.Pos()), "a success return that does not prepend the context is justified", just)
 		}
@@ -191,6 +197,13 @@ func runC10(c *Ctx) {
 				s := newSym(L, map[string]bool{})
 				s.maxD = 0
 				if strings.Contains(strings.Join(s.eval(cs.arg(0)), "|"), "InjectorArgument.Type(index(field:internal/kessoku.Injector.Args(") {
+					okFind = true
+				}
+			}
+		}
+		for _, b := range ica.Blocks {
+			if iff, isIf := b.Instrs[len(b.Instrs)-1].(*ssa.If); isIf {
+				if okS, _ := containsFuncOver(L, iff.Cond, "field:internal/kessoku.Injector.Args(", "isContextType", "internal/kessoku.InjectorArgument.Type"); okS {
 					okFind = true
 				}
 			}
@@ -469,4 +482,39 @@ func coSignature(c *Ctx, rule string, f *coFunc, g *coGraph) {
 		}
 	}
 	c.ok(rule, fmt.Sprintf("%s: signature agrees with its body (async=%v, fallible=%v, %d parameters)", f.key(), hasAsync, fallible, len(f.params)), fmt.Sprintf("first parameter %q", first))
+}
+
+var argsOfInjectorParam = regexp.MustCompile(`, field:internal/kessoku\.Injector\.Args\(param:[A-Za-z_0-9]+\)\)$`)
+
+// injectorHelpers returns fn plus the module functions it statically calls (to the given depth) that receive a *Injector.
+func injectorHelpers(fn *ssa.Function, depth int) []*ssa.Function {
+	out := []*ssa.Function{fn}
+	seen := map[*ssa.Function]bool{fn: true}
+	frontier := []*ssa.Function{fn}
+	for d := 0; d < depth; d++ {
+		var next []*ssa.Function
+		for _, f := range frontier {
+			for _, w := range withClosures(f) {
+				for _, cs := range callsIn(w) {
+					cal := cs.common.StaticCallee()
+					if cal == nil || seen[cal] || cal.Pkg == nil || fn.Pkg == nil || cal.Pkg != fn.Pkg || len(cal.Blocks) == 0 {
+						continue
+					}
+					takes := false
+					for _, p := range cal.Params {
+						if strings.HasSuffix(p.Type().String(), "internal/kessoku.Injector") {
+							takes = true
+						}
+					}
+					if takes {
+						seen[cal] = true
+						out = append(out, cal)
+						next = append(next, cal)
+					}
+				}
+			}
+		}
+		frontier = next
+	}
+	return out
 }
